@@ -30,7 +30,7 @@ import TracklibVerif.Drv.Util
                                   `<diameter>` and `<duration>` (the harness passes squared lengths against the squared diameter)
   stopsd q <diameter> <duration> <downsampling> <track> <resampled> <circ2> <circA> <cx> <cy>
                                 → `findStopsGlobalPyA` (= `findStopsGlobalPy`, theorem `find_stops_array_form`), from the caller's arguments
-                                  (`<downsampling>` = `v1` / `v0`: the dispatcher `findStopsPy` called with `verbose` True / False — `boolNum`): `<track>` and `<resampled>` (`_` when not asked for)
+                                  (`<downsampling>` = `v1` / `v0`: the dispatcher `findStopsPy` called with `verbose` True / False — `dispatchDs`: downsampling is 1 either way): `<track>` and `<resampled>` (`_` when not asked for)
                                   are rows `x,y,z,t`; the model chooses the track (`downsampling > 1`), computes the squared planimetric
                                   distances and the durations itself and applies the three tests and the final filter;
                                   `circ2[i][e]` / `circA[i][e]` = squared `2 * radius` of `minCircle` in the row loops / in the final
@@ -258,7 +258,7 @@ def handle (cmd : String) (args : List String) : String :=
   | [s, dia, du, ds, track, resampled, circ, circA, cxs, cys] =>
     if cmd != "stopsd" || s != "q" then "bad-request"
     else
-      match rat? dia, rat? du, (if ds == "v1" then some (boolNum (0 : Rat) 1 true) else if ds == "v0" then some (boolNum (0 : Rat) 1 false)
+      match rat? dia, rat? du, (if ds == "v1" then some (dispatchDs (1 : Rat) true) else if ds == "v0" then some (dispatchDs (1 : Rat) false)
           else rat? ds), ratListList? track, ratListList? resampled, ratListList? circ, ratListList? circA,
         ratListList? cxs, ratListList? cys with
       | some a, some b, some c, some t, some r, some e, some k, some x, some y => runStopsD a b c t r e k x y
